@@ -28,11 +28,11 @@ OwnerOf(s, i) == Get(s.owner, i, NoRunner)
 Invs(s)       == DOMAIN s.st
 
 NoState == [st |-> EmptyF, owner |-> EmptyF, queue |-> <<>>, res |-> EmptyF, exc |-> EmptyF,
-            retries |-> EmptyF]
+            retries |-> EmptyF, age |-> EmptyF, hbage |-> EmptyF]
 
 NoGhost == [holder |-> EmptyF, bodies |-> {}, epoch |-> EmptyF, accepted |-> {}, changes |-> EmptyF,
             returned |-> EmptyF, raised |-> EmptyF, ckey |-> EmptyF, mode |-> "disabled", reroute |-> TRUE,
-            claimedby |-> EmptyF, stopped |-> {}]
+            claimedby |-> EmptyF, stopped |-> {}, maxpending |-> 0, deadafter |-> 0]
 
 ObsInit == /\ RegInit
            /\ tid \in 1..NT
@@ -57,7 +57,8 @@ RegisterAll(ch, ids, r) ==
 
 NextGhost ==
   CASE Ev.op = "config" ->
-         [g EXCEPT !.ckey = Ev.cfg.ckey, !.mode = Ev.cfg.mode, !.reroute = Ev.cfg.reroute]
+         [g EXCEPT !.ckey = Ev.cfg.ckey, !.mode = Ev.cfg.mode, !.reroute = Ev.cfg.reroute,
+                   !.maxpending = Ev.cfg.max_pending, !.deadafter = Ev.cfg.dead_after]
     [] Registers ->
          [g EXCEPT !.changes = RegisterAll(@, A.invs, A.runner)]
     [] StatusOk ->
@@ -125,6 +126,15 @@ EventuallyFinalOf(i) ==
   /\ StOf(N, i) \in {"success", "failed"} =>
        (Get(g.returned, i, {}) \cup Get(g.raised, i, {})) # {}
 EventuallyFinal == Ev.op = "settled" => \A i \in g.accepted : EventuallyFinalOf(i)
+
+\* C04: recovery never takes live work (ages in whole seconds of the virtual clock, as logged)
+NoStealObs ==
+  /\ (StatusOk /\ A.to = "pending_recovery") =>
+        (StOf(o, A.inv) = "pending" /\ Get(o.age, A.inv, 0) >= g.maxpending)
+  /\ (StatusOk /\ A.to = "running_recovery") =>
+        (StOf(o, A.inv) = "running" /\
+         (OwnerOf(o, A.inv) \notin DOMAIN o.hbage \/ o.hbage[OwnerOf(o, A.inv)] > g.deadafter))
+RecoveryNeverFails == Ev.op = "recovery_end" => IsOk
 
 \* C05
 SuccessHasResult ==
@@ -198,6 +208,8 @@ Checks ==
         \A i \in g.accepted : CheckD(tid, K, "NoStrandedQuiescent", i, StOf(N, i), Safe0(N, i)))
   /\ (Ev.op = "settled" =>
         \A i \in g.accepted : CheckD(tid, K, "EventuallyFinal", i, StOf(N, i), EventuallyFinalOf(i)))
+  /\ Check(tid, K, "NoStealObs", NoStealObs)
+  /\ Check(tid, K, "RecoveryNeverFails", RecoveryNeverFails)
   /\ Check(tid, K, "SuccessHasResult", SuccessHasResult)
   /\ Check(tid, K, "FailedHasException", FailedHasException)
   /\ Check(tid, K, "NoValueBeforeFinal", NoValueBeforeFinal)
